@@ -2886,6 +2886,10 @@ def groupby_reduce(
 
         method = _choose_method(method, preferred_method, agg, by_, nax)
 
+        if method == "blockwise" and not any_by_dask and by_.shape != array.shape[-by_.ndim :]:
+            # size-1 dimensions of `by`: the per-block label lists need the labels of every block
+            by_ = np.broadcast_to(by_, array.shape[-by_.ndim :])
+
         if agg.chunk[0] is None and method != "blockwise":
             raise NotImplementedError(
                 f"Aggregation {agg.name!r} is only implemented for dask arrays when method='blockwise'."
